@@ -122,7 +122,8 @@ def handleMapper : List Sx → Option String
     let relabel ← match mode with
       | .atom "id" => some relabelId
       | .list [.atom "tag", .atom kind, .atom t] =>
-        some fun nd => (nd.kind, if nd.kind == kind then nd.tags ++ [t] else nd.tags)
+        some fun nd => (nd.kind,
+          if nd.kind == kind && !nd.tags.contains t then nd.tags ++ [t] else nd.tags)
       | .list [.atom "untag", .atom t] =>
         -- make nodes equal by dropping a tag (creates duplicates to be merged)
         some fun nd => (nd.kind, nd.tags.filter (· != t))
@@ -131,7 +132,13 @@ def handleMapper : List Sx → Option String
     let img := (visitLog s h r).map fun i => match st.image i with
       | some j => s!"({i} {j})"
       | none => s!"({i} none)"
-    some s!"{st.heap.size} {showOptNat (st.image r)} ({" ".intercalate img})"
+    -- size of the result heap, image of the root, #nodes of the result graph, #of those that are
+    -- input nodes (reused objects), old ↦ new map
+    let res := match st.image r with
+      | some j => visitLog (fun _ _ => true) st.heap j
+      | none => []
+    let reused := (res.filter (· < h.size)).length
+    some s!"{st.heap.size} {showOptNat (st.image r)} {res.length} {reused} ({" ".intercalate img})"
   | _ => none
 
 end Pt
